@@ -304,7 +304,11 @@ func monC05() mc.Monitor {
 				ts := post.Users[u].Queues[q]
 				ref, _ := table.user(q, u)
 				if !daoLimEqual(ts.Max, ref.res) || ts.MaxApps != ref.apps {
-					out = append(out, v("C05", "user-limit-not-latest-config", limitDiffClass(ts.Max, ts.MaxApps, ref)+"/"+reloaded, "user %s in %s: limits in force are max %v / %d applications, the latest accepted configuration (#%d) says max %v / %d applications (after %s)", u, q, ts.Max, ts.MaxApps, post.Shim.Config, ref.res, ref.apps, st.Op))
+					cls := limitDiffClass(ts.Max, ts.MaxApps, ref)
+					if wl, ok := table.users[q]["*"]; ok && cls == "different" && !ref.wildcard && daoLimEqual(ts.Max, wl.res) && ts.MaxApps == wl.apps {
+						cls = "lost" // the named limit is lost and the queue's wildcard limit applies instead: same defect as "lost"
+					}
+					out = append(out, v("C05", "user-limit-not-latest-config", cls+"/"+reloaded, "user %s in %s: limits in force are max %v / %d applications, the latest accepted configuration (#%d) says max %v / %d applications (after %s)", u, q, ts.Max, ts.MaxApps, post.Shim.Config, ref.res, ref.apps, st.Op))
 				}
 			}
 		}
